@@ -538,21 +538,23 @@ class NestedSampler(BaseNestedSampler):
     def initialise_history(self):
         if not self.history:
             super().initialise_history()
-            self.history.update(
-                dict(
-                    iterations=[],
-                    min_log_likelihood=[],
-                    max_log_likelihood=[],
-                    logZ=[],
-                    dlogZ=[],
-                    mean_acceptance=[],
-                    training_iterations=[],
-                    population_acceptance=[],
-                    population_radii=[],
-                    population_iterations=[],
-                    rolling_p=[],
-                )
-            )
+        # Use setdefault so that a history that is missing keys, e.g. from a
+        # sampler that was checkpointed part-way through initialising it, is
+        # completed rather than left as is
+        for key in [
+            "iterations",
+            "min_log_likelihood",
+            "max_log_likelihood",
+            "logZ",
+            "dlogZ",
+            "mean_acceptance",
+            "training_iterations",
+            "population_acceptance",
+            "population_radii",
+            "population_iterations",
+            "rolling_p",
+        ]:
+            self.history.setdefault(key, [])
 
     def update_history(self):
         super().update_history()
